@@ -342,8 +342,8 @@ class Ctx:
 
     def fail(self, key, what, case, found_input=True, source="oracle"):
         """Record a property failure (found_input=True: `case` fails on the implementation)."""
-        if source in self.oracle_stats:
-            self.oracle_stats[source]["failures"] += 1
+        st = self.oracle_stats.get(source) or self.oracle_stats.setdefault(source, {"cases": 0, "nontrivial": 0, "failures": 0})
+        st["failures"] += 1
         if (self.prop, key) in self.known and found_input:
             self.known_hits.setdefault(key, what)
             return
